@@ -21,7 +21,8 @@ func (c18) ID() string    { return "C18" }
 func (c18) Level() string { return "exploration" }
 func (c18) Rule() string {
 	return "generated schema/tree; histories of 3..15 operations mixing Delete (container, list entry first/middle/last/only, whole list), " +
-		"ReplaceFrom (container, entry), InsertFrom/UpsertFrom of entries incl. delete-then-reinsert of the same key; on every store under test. " +
+		"ReplaceFrom (container, entry), InsertFrom/UpsertFrom of entries incl. delete-then-reinsert of the same key; stores under test: reference store, " +
+		"nodeutil.Reflect and nodeutil.Node over Go maps (lists as slices of maps or keyed maps) and over reflect.StructOf structs (lists as []*T, []T, map[K]*T). " +
 		"Monitors after every step: store content (read directly) == model; key-uniqueness scan of every list; Find on every remaining path selects it " +
 		"and Find on the removed path selects nothing. A shape = (op kind, position of the entry in its list, store, depth); trivial = no-op"
 }
